@@ -291,7 +291,7 @@ fn fmt(src: &str, path: &Option<PathBuf>, w: usize) -> Result<Result<String, ()>
 /// one of them is repaired, so they are statistics only (`texts_in_known_classes` of the evidence) — `OPEN_CLASSES` lists the labels
 /// that still key an OPEN finding of known_findings.jsonl: texts carrying one of those are not mutated / gap-probed (their static
 /// defect would mask everything else).
-const OPEN_CLASSES: [&str; 0] = [];
+const OPEN_CLASSES: [&str; 3] = ["lenient-stray-comma", "lenient-assign-in-if", "lenient-assign-in-macro-arg"];
 
 fn in_open_class(cs: &[&'static str]) -> bool {
     cs.iter().any(|c| OPEN_CLASSES.contains(c))
@@ -330,6 +330,17 @@ fn classes(p: &Parsed, src: &str) -> Vec<&'static str> {
                         if matches!(child_kind(i), Some(SyntaxKind::TypeAnnotation) | Some(SyntaxKind::ParamDefault)) {
                             add("typed-param", &mut c);
                         }
+                        // a comma that follows no item: `(,` or `,,` (parse_param_list reports no error; Model/CstStrict.lean)
+                        if i >= 1 && child_tok(i) == Some(TokenKind::Comma) && (i == 1 || child_tok(i - 1) == Some(TokenKind::Comma)) {
+                            add("lenient-stray-comma", &mut c);
+                        }
+                    }
+                }
+                SyntaxKind::MacroExpansion => {
+                    for i in 0..children.len() {
+                        if child_kind(i) == Some(SyntaxKind::AssignExpr) {
+                            add("lenient-assign-in-macro-arg", &mut c);
+                        }
                     }
                 }
                 SyntaxKind::IfExpr => {
@@ -355,6 +366,15 @@ fn classes(p: &Parsed, src: &str) -> Vec<&'static str> {
                     if first_tok_after_if != Some(TokenKind::ParenBegin) {
                         add("if-no-paren", &mut c);
                     }
+                    // an assignment as condition or then-branch: an `AssignExpr` child in front of `else`
+                    for i in 0..children.len() {
+                        if child_tok(i) == Some(TokenKind::Else) {
+                            break;
+                        }
+                        if child_kind(i) == Some(SyntaxKind::AssignExpr) {
+                            add("lenient-assign-in-if", &mut c);
+                        }
+                    }
                 }
                 SyntaxKind::TupleExpr => {
                     // `(x,)`: one element and a trailing comma
@@ -374,6 +394,14 @@ fn classes(p: &Parsed, src: &str) -> Vec<&'static str> {
                 SyntaxKind::LambdaExpr => {
                     if child_tok(0) == Some(TokenKind::LambdaArgBeginEnd) && child_tok(1) == Some(TokenKind::LambdaArgBeginEnd) {
                         add("empty-lambda-params", &mut c);
+                    }
+                    // between the bars: a comma that follows no item
+                    let mut i = 1;
+                    while i < children.len() && child_tok(i) != Some(TokenKind::LambdaArgBeginEnd) {
+                        if child_tok(i) == Some(TokenKind::Comma) && (i == 1 || child_tok(i - 1) == Some(TokenKind::Comma)) {
+                            add("lenient-stray-comma", &mut c);
+                        }
+                        i += 1;
                     }
                 }
                 _ => {}
